@@ -14,12 +14,13 @@ import (
 	"os"
 	"sort"
 	"strings"
+	"time"
 
 	"github.com/tucats/ego/internal/verifrt/egobatch"
 	"github.com/tucats/ego/internal/verifrt/report"
 )
 
-func fatal(msg string) { report.Fatal(msg) }
+func fatal(msg string) { report.Fatal("%s", msg) }
 
 // Witness is the self-contained replay record of a violation.
 type Witness struct {
@@ -63,6 +64,10 @@ func main() {
 
 	thorough := r.Thorough()
 
+	if os.Getenv("VERIF_C05_BENCH") != "" {
+		bench()
+	}
+
 	var items []item
 
 	items = append(items, exprItems(thorough)...)
@@ -100,11 +105,24 @@ func main() {
 
 	fmt.Printf("c05: %d generated texts\n", len(jobs))
 
+	t0 := time.Now()
 	res := judgeAll(scratch, jobs)
+
+	fmt.Printf("c05: generated texts judged in %.1fs\n", time.Since(t0).Seconds())
+
+	t0 = time.Now()
 
 	analyse(r, scratch, items, res)
 
-	corpus(r, scratch)
+	fmt.Printf("c05: cells confirmed in fresh processes in %.1fs\n", time.Since(t0).Seconds())
+
+	t0 = time.Now()
+
+	if os.Getenv("VERIF_C05_FAMILIES") == "" || strings.Contains(os.Getenv("VERIF_C05_FAMILIES"), "corpus") {
+		corpus(r, scratch)
+	}
+
+	fmt.Printf("c05: corpus judged in %.1fs\n", time.Since(t0).Seconds())
 
 	r.Rule("a case is one source text (generated: expression production x position, statement form or ordered pair x block context, " +
 		"declaration form or ordered pair, base program + comments in token gaps, each as program and as fragment; corpus: one .ego file); " +
@@ -129,15 +147,20 @@ func analyse(r *report.R, scratch string, items []item, res []Res) {
 	fams := map[string]*fam{}
 	rejects := map[string][]string{}
 
-	hasKind := func(i int, kind string) bool {
-		for _, f := range res[i].Findings {
-			if f.Kind == kind {
-				return true
+	// the finding that names a text's cell: the gravest one
+	primary := func(fs []Finding) (Finding, bool) {
+		for _, kind := range []string{"fmt-fails", "changes-program", "comment-lost", "not-idempotent"} {
+			for _, f := range fs {
+				if f.Kind == kind {
+					return f, true
+				}
 			}
 		}
 
-		return false
+		return Finding{}, false
 	}
+
+	kindCount := map[string]int{}
 
 	type cand struct {
 		i int
@@ -147,6 +170,7 @@ func analyse(r *report.R, scratch string, items []item, res []Res) {
 	cells := map[string][]cand{}
 	attributed := 0
 	died := 0
+	sameTok := 0
 
 	for i, it := range items {
 		fm := fams[it.family]
@@ -196,10 +220,18 @@ func analyse(r *report.R, scratch string, items []item, res []Res) {
 		}
 
 		for _, f := range res[i].Findings {
+			kindCount[f.Kind]++
+		}
+
+		if res[i].SameTokens {
+			sameTok++
+		}
+
+		if f, bad := primary(res[i].Findings); bad {
 			explained := false
 
 			for _, ex := range it.explain {
-				if j, ok := byName[ex]; ok && hasKind(j, f.Kind) {
+				if j, ok := byName[ex]; ok && len(res[j].Findings) > 0 {
 					explained = true
 
 					break
@@ -216,6 +248,12 @@ func analyse(r *report.R, scratch string, items []item, res []Res) {
 			cells[key] = append(cells[key], cand{i, f})
 		}
 	}
+
+	for k, v := range kindCount {
+		r.Add("findings_"+k, int64(v))
+	}
+
+	r.Add("formatted_text_has_the_same_tokens", int64(sameTok))
 
 	names := make([]string, 0, len(fams))
 	for k := range fams {
@@ -306,4 +344,36 @@ func analyse(r *report.R, scratch string, items []item, res []Res) {
 		r.Sample(map[string]any{"name": items[len(items)/2].name, "source": items[len(items)/2].src})
 		r.Sample(map[string]any{"name": items[len(items)-1].name, "source": items[len(items)-1].src})
 	}
+}
+
+func bench() {
+	setup()
+
+	its := exprItems(false)
+	src := its[len(its)/3].src
+
+	t0 := time.Now()
+	for i := 0; i < 100; i++ {
+		runText(src, false)
+	}
+
+	fmt.Println("100 runs:", time.Since(t0))
+
+	t0 = time.Now()
+	for i := 0; i < 100; i++ {
+		_, _ = render(src, "program")
+	}
+
+	fmt.Println("100 renders:", time.Since(t0))
+
+	t0 = time.Now()
+	for i := 0; i < 100; i++ {
+		judge(Job{Src: src})
+	}
+
+	fmt.Println("100 judges:", time.Since(t0))
+	f, _ := render(src, "program")
+	fmt.Println(firstDiff(src, f))
+	fmt.Println(f)
+	os.Exit(2)
 }
